@@ -238,7 +238,7 @@ typedef struct OPN2_BankId
     OPN2_UInt8 percussive;
     /*! Assign to MSB bank number */
     OPN2_UInt8 msb;
-    /*! Assign to LSB bank number */
+    /*! Assign to LSB bank number (0...127; percussion sets also 128...255: the XG SFX kits of a bank file) */
     OPN2_UInt8 lsb;
 } OPN2_BankId;
 
